@@ -165,7 +165,9 @@ def c12Step (s : Sess) (line : String) : Sess × String :=
     | "areset", [some a] =>
       match s.held.get a with
       | some h => if h.sealed then (s, "bad-op") else
-        answer { s with held := s.held.set a { h with new := h.old.getD emptyAVal } } "ok"
+        -- Reset installs a new working record: an open handle keeps pointing at the discarded one
+        let unbind := s.handles.map fun p => if p.1 = a then (p.1, { p.2 with bound := false }) else p
+        answer { s with held := s.held.set a { h with new := h.old.getD emptyAVal }, handles := unbind } "ok"
       | none => (s, "bad-op")
     | "aput", [some a] =>
       match s.held.get a with
